@@ -38,7 +38,7 @@ def prefix_suffix(ctx, thorough):
         assertable = sorted({tuple(s["f"]) for h in hs[:3000] for s in h})
         if model == "univ":
             hs = [h for h in hs if any(s["f"][0] == "head_of" for s in h)] + rnd.sample(hs, 1500)
-        hs = rnd.sample(hs, min(len(hs), 12000 if thorough else 2500))
+        hs = rnd.sample(hs, min(len(hs), 8000 if thorough else 2500))
         for h in hs:
             single = {}
             facts = [list(f) for f in rnd.sample(assertable, 6)]
@@ -79,9 +79,9 @@ def main():
     ctx.run_tlc("SymbolGraph", "SymbolGraph_sw_StaleRelationIndex.cfg", expect="violation")
     ctx.run_tlc("SymbolGraph", "SymbolGraph_sw_PopIdOfNone.cfg", expect="violation")
 
-    hs1, t1 = sgcommon.histories(ctx, "SymbolGraph_gen_c14p.cfg", lambda h: True, None if thorough else 3500)
+    hs1, t1 = sgcommon.histories(ctx, "SymbolGraph_gen_c14p.cfg", lambda h: True, 30000 if thorough else 3500)
     hs2, t2 = sgcommon.histories(ctx, "SymbolGraph_gen_c14.cfg", lambda h: any(s["a"] == "relate" for s in h),
-                                 20000 if thorough else 1500)
+                                 10000 if thorough else 1500)
     hs = hs1 + hs2
     ctx.cov["histories_in_bound"] = {"phased": t1, "unphased_with_relate": t2}
     cases = [{"mode": "c14", "h": h} for h in hs]
